@@ -50,6 +50,25 @@ func runSolver(s solverSpec, file string, timeout int) (string, string, float64)
 
 // query renders the SMT-LIB text of one obligation.
 func (fc *FnCtx) query(ob *Obligation, axiomEnc bool, withModel bool) string {
+	return fc.queryWith(ob, axiomEnc, withModel, nil)
+}
+
+// smallModelHints bounds the lengths of input sequences (used only to pick a convenient counterexample).
+func (fc *FnCtx) smallModelHints() []string {
+	var out []string
+	for _, p := range fc.fn.Params {
+		v := fc.vals[p]
+		if v.K == KStr || v.K == KSlice {
+			out = append(out, fmt.Sprintf("(<= %s 48)", v.C[2]))
+			if v.K == KSlice {
+				out = append(out, fmt.Sprintf("(= %s %s)", v.C[3], v.C[2]))
+			}
+		}
+	}
+	return out
+}
+
+func (fc *FnCtx) queryWith(ob *Obligation, axiomEnc bool, withModel bool, extra []string) string {
 	var sb strings.Builder
 	sb.WriteString("; obligation " + ob.Name + "\n")
 	if withModel {
@@ -73,6 +92,9 @@ func (fc *FnCtx) query(ob *Obligation, axiomEnc bool, withModel bool) string {
 		sb.WriteString("(assert " + a + ")\n")
 	}
 	for _, a := range fc.asserts[:ob.Prefix] {
+		sb.WriteString("(assert " + a + ")\n")
+	}
+	for _, a := range extra {
 		sb.WriteString("(assert " + a + ")\n")
 	}
 	goal := implies(ob.Guard, ob.Cond)
@@ -135,6 +157,21 @@ func (e *Engine) discharge(ob *Obligation, idx int) {
 	if st1 > 4 {
 		st1 = 4
 	}
+	if ob.Kind == "canary" {
+		// vacuity guard: only a quick refutation matters (unsat = contradictory assumptions)
+		res, _, _ := runSolver(solvers[0], f1, 2)
+		ob.Time = time.Since(t0).Seconds()
+		switch res {
+		case "unsat":
+			ob.Status, ob.Solver = "proved", "z3-new"
+		case "sat":
+			ob.Status, ob.Solver = "failed", "z3-new"
+		default:
+			ob.Status = "unknown"
+		}
+		os.Remove(f1)
+		return
+	}
 	res, out, _ := runSolver(solvers[0], f1, st1)
 	if res == "unsat" {
 		ob.Status, ob.Solver, ob.Time = "proved", "z3-new", time.Since(t0).Seconds()
@@ -146,6 +183,22 @@ func (e *Engine) discharge(ob *Obligation, idx int) {
 		satBy = "z3-new"
 	}
 	ob.Output = out
+	if res == "sat" {
+		// a definite counterexample: no need to race the other solvers
+		ob.Status, ob.Solver, ob.Time = "failed", "z3-new", time.Since(t0).Seconds()
+		if ob.Kind != "canary" {
+			// prefer a small model (short sequences): easier to replay
+			fs := base + ".small.smt2"
+			os.WriteFile(fs, []byte(fc.queryWith(ob, false, true, fc.smallModelHints())), 0o644)
+			r, o, _ := runSolver(solvers[0], fs, e.timeout)
+			if r != "sat" {
+				fm := write(".model", false, true)
+				_, o, _ = runSolver(solvers[0], fm, e.timeout)
+			}
+			ob.Model = o
+		}
+		return
+	}
 	atts := []attempt{{solvers[1], f1}, {solvers[2], f1}}
 	if e.timeout > st1 {
 		atts = append(atts, attempt{solvers[0], f1})
